@@ -61,7 +61,7 @@ PROPS = {
         "assumptions": [],
     },
     "C12": {
-        "units": [("fixer", r"parse|with_transform|from_str")],
+        "units": [("fixer", r"parse|with_transform|from_str"), "deserialize_env", ("rule_core", r"do_match")],
         "kani": [],
         "decided": ["Fixer::parse (string and object form): every key of `transform` is a Transformed slot of the fix template"],
         "not_decided": ["check_var_*, TopologicalSort (planned), run-time replacement of slots (C07)"],
@@ -77,7 +77,7 @@ PROPS = {
         "assumptions": ["tree_sitter::Point is a plain (row, column) carrier"],
     },
     "C11": {
-        "units": [("strictness", r"match_meta_var|match_leaf_meta_var"), "nth_child", "rewrite"],
+        "units": [("strictness", r"match_meta_var|match_leaf_meta_var"), "nth_child", "rewrite", "deserialize_env"],
         "kani": [K("config", "numeric_position_exact", "numeric nthChild: no panic, no truncation", complete=True),
                  K("config", "parse_an_b_len4", "parse_an_b: no panic/overflow", bound="strings over {9,1,n,+,-,space}, length <= 4"),
                  K("config", "parse_an_b_len11", "parse_an_b: no overflow on 11-digit numbers", bound="digit strings over {9,1,n}, length <= 11", tier="thorough")],
@@ -91,6 +91,15 @@ PROPS = {
         "decided": ["MaySuppressed::suppressed_id: silenced iff a suppression governs the line and lists the rule id or lists nothing; reports that suppression's node id"],
         "not_decided": ["where comments sit (tree-sitter prev()/start_pos), comment detection by kind name, the unused-suppression bookkeeping inside CombinedScan::scan (HashMap/HashSet + dfs iterator), CLI records"],
         "assumptions": ["HashSet<String>::contains(&str) is set membership on the string content"],
+    },
+    "C15": {
+        "units": ["rule_collection", "rule_overwrite"],
+        "kani": [],
+        "decided": ["RuleCollection::try_new: a rule whose severity is off is dropped; a rule without files/ignores is tenured in the (unique) bucket of its language, in input order; every other rule is contingent, in input order; nothing else is stored",
+                    "ContingentRule::matches_path: ignores win, then files must match when present",
+                    "RuleOverwrite::new / read_severity / find / overwrite: per-rule --<sev>=ID wins over a blanket --<sev>; later flags (error, warning, info, hint, off order) win for the same id; without a flag the rule keeps its severity"],
+        "not_decided": ["globset semantics, directory walk, language detection tables, clap parsing, exit status accumulation (scan.rs), get_rule_from_lang (iterator adapters)"],
+        "assumptions": ["L instantiated with a concrete language tag (R6)"],
     },
     "C18": {
         "units": ["cli_print"],
